@@ -20,6 +20,8 @@ enum Shape {
   AfterTake1,
   /// subject.finalize(f).finalize(g): two finalizers, each exactly once
   Twice,
+  /// one finalize operator value, cloned and subscribed twice: once per subscription
+  Cloned,
 }
 
 #[derive(Default)]
@@ -35,12 +37,24 @@ macro_rules! fin_job {
         let _w = world::World::new();
         let mut src = <$subj>::default();
         let probe = Probe::new();
+        let probe2 = Probe::new();
         let calls: Arc<Mutex<Calls>> = Arc::new(Mutex::new(Calls::default()));
         let calls2: Arc<Mutex<Calls>> = Arc::new(Mutex::new(Calls::default()));
+        // set by the harness while it is inside unsubscribe()
+        let in_unsub = Arc::new(std::sync::atomic::AtomicBool::new(false));
         let mk = |c: &Arc<Mutex<Calls>>| {
           let (c, p) = (c.clone(), probe.clone());
+          let mut again = src.clone();
+          let flag = in_unsub.clone();
           move || {
             c.lock().unwrap().at.push((p.terminated(), p.len()));
+            // triggered by unsubscribe: by now the subscription is over, an item
+            // emitted from inside the finalizer must not reach the subscriber.
+            // (Not done for terminal triggers: emitting into a subject from inside
+            // its own terminal delivery is re-entrancy nobody promises to support.)
+            if flag.load(std::sync::atomic::Ordering::SeqCst) && shape != Shape::Cloned {
+              again.next(V::I(99));
+            }
           }
         };
         let mut sub: Option<Box<dyn FnOnce()>> = Some(match shape {
@@ -63,6 +77,15 @@ macro_rules! fin_job {
               .$fin(mk(&calls2))
               .actual_subscribe(probe.clone());
             Box::new(move || u.unsubscribe())
+          }
+          Shape::Cloned => {
+            let op = src.clone().$fin(mk(&calls));
+            let u1 = op.clone().actual_subscribe(probe.clone());
+            let u2 = op.actual_subscribe(probe2.clone());
+            Box::new(move || {
+              u1.unsubscribe();
+              u2.unsubscribe();
+            })
           }
         });
         let mut triggered = false;
@@ -108,7 +131,9 @@ macro_rules! fin_job {
               }
             }
             "unsubscribe" => {
+              in_unsub.store(true, std::sync::atomic::Ordering::SeqCst);
               (sub.take().unwrap())();
+              in_unsub.store(false, std::sync::atomic::Ordering::SeqCst);
               triggered = true;
             }
             _ => unreachable!(),
@@ -119,8 +144,15 @@ macro_rules! fin_job {
           for (c, who) in all.iter().take(n_fin) {
             let c = c.lock().unwrap();
             let n = c.at.len();
-            let want = triggered as usize;
+            let want = triggered as usize * if shape == Shape::Cloned { 2 } else { 1 };
             if maybe && !triggered && n <= 1 {
+              continue;
+            }
+            if shape == Shape::Cloned && n == 1 && want == 2 {
+              obs.fail(
+                format!("c15:once-per-operator-not-per-subscription:{:?}", $form),
+                format!("{shape:?} after [{}]: two subscriptions of clones of one finalize operator ended, the finalizer ran once", hist.join(" ")),
+              );
               continue;
             }
             if n != want {
@@ -144,6 +176,18 @@ macro_rules! fin_job {
                 format!(
                   "{shape:?} after [{}]: the finalizer ran before the terminal reached the subscriber",
                   hist.join(" ")
+                ),
+              );
+            }
+          }
+          for (who, p) in [("subscriber", &probe), ("second subscriber", &probe2)] {
+            if p.notes().contains(&Note::N(V::I(99))) {
+              obs.fail(
+                format!("c15:ran-before-teardown:{:?}", $form),
+                format!(
+                  "{shape:?} after [{}]: an item emitted from inside the finalizer still reached the {who}: [{}]",
+                  hist.join(" "),
+                  fmt_notes(&p.notes())
                 ),
               );
             }
@@ -172,7 +216,7 @@ pub fn plan(tier: Tier) -> Plan {
     Tier::Thorough => 10,
   };
   let mut jobs = vec![];
-  for shape in [Shape::Plain, Shape::ThenTake1, Shape::AfterTake1, Shape::Twice] {
+  for shape in [Shape::Plain, Shape::ThenTake1, Shape::AfterTake1, Shape::Twice, Shape::Cloned] {
     jobs.push(job_local(shape, len));
     jobs.push(job_threads(shape, len));
   }
@@ -183,7 +227,7 @@ pub fn plan(tier: Tier) -> Plan {
       tier: tier_name(tier),
       engine: "E1 opseq".into(),
       rule: "every sequence up to the length bound over {next, complete, error (each through a fresh clone of the source handle), unsubscribe} on subject.finalize(f), .finalize(f).take(1), .take(1).finalize(f) and two stacked finalizers, local and _threads: the invocation counter is 0 before the first trigger, exactly 1 when the triggering call returns and for ever after; when the trigger is a terminal it has reached the subscriber before the callback runs; non-trivial = something was delivered or the finalizer ran".into(),
-      bounds: json!({"sequence_len": len, "shapes": 4, "forms": 2}),
+      bounds: json!({"sequence_len": len, "shapes": 5, "forms": 2}),
       assumptions: vec![],
     },
   }
